@@ -576,6 +576,8 @@ def c03_steps(tier, seed):
         native("channel-nested-in-handler", ["w_channel", "--mode", "signal", "--histories", 800 if q else 40000, "--seed", seed + 33, "--heap", 0], also=["C08"]),
         native("wake-on-full-descriptors", ["w_pipe", "--seed", seed + 34, "--cycles", 200], also=["C13"]),
         native("backlog-on-own-thread", ["w_step", "--mode", "backlog", "--seed", seed + 36], timeout=300),
+        # the dispatcher must not call back a handler that the application installed on top of it (unbounded recursion)
+        native("late-handler-on-top", ["w_chain", "--seed", seed + 37, "--reps", 1], timeout=600),
         # an armed shutdown must leave with _exit: running exit-time hooks inside the handler is not async-signal-safe
         native("armed-shutdown-no-exit-hooks", ["w_flag", "--seed", seed + 35, "--scripts", 300 if q else 5000], also=["C15"]),
     ]
